@@ -164,8 +164,15 @@ func (s *triplestore) adjacent(node uint64, direction graph.Direction) cardinali
 				nodes.Add(edge.Start)
 
 			default:
-				nodes.Add(edge.End)
-				nodes.Add(edge.Start)
+				// Both directions: add the endpoint opposite to the node. A self loop
+				// contributes the node itself.
+				if edge.Start == node {
+					nodes.Add(edge.End)
+				}
+
+				if edge.End == node {
+					nodes.Add(edge.Start)
+				}
 			}
 		}
 
@@ -291,6 +298,27 @@ func (s *triplestoreProjection) EachAdjacentEdge(node uint64, direction graph.Di
 
 func (s *triplestoreProjection) EachAdjacentNode(node uint64, direction graph.Direction, delegate func(adjacent uint64) bool) {
 	s.EachAdjacentEdge(node, direction, func(next Edge) bool {
-		return delegate(next.Pick(direction))
+		switch direction {
+		case graph.DirectionOutbound:
+			return delegate(next.End)
+
+		case graph.DirectionInbound:
+			return delegate(next.Start)
+
+		default:
+			// Both directions: report the endpoint opposite to the node. A self loop
+			// reports the node itself once.
+			if next.Start == node {
+				if !delegate(next.End) {
+					return false
+				}
+			}
+
+			if next.End == node && next.Start != node {
+				return delegate(next.Start)
+			}
+
+			return true
+		}
 	})
 }
